@@ -22,6 +22,7 @@ import (
 	"verifharness/coqfmt"
 	"verifharness/gen"
 	"verifharness/memstore"
+	"verifharness/world"
 )
 
 // C01 / C02 / C03: the content-addressable store.
@@ -308,6 +309,39 @@ func cafsRun(cs *cafsCase, py *pyRef) {
 				out = w.buf
 				return err
 			})
+		case "dl": // the object as the only file of a bundle, the same damage in the blob store, a full download to a directory
+			p.Class = guarded(30*time.Second, func() error {
+				w := world.New()
+				if err := w.CreateRepo("repo"); err != nil {
+					return err
+				}
+				id, err := w.Upload("repo", world.Consumable([]world.File{{Name: "obj", Data: content}}), world.UploadOpts{LeafSize: uint32(cs.L)})
+				if err != nil {
+					panic("upload for the download probe: " + err.Error())
+				}
+				for _, d := range cs.Damage {
+					if _, ok := w.Blob.Snapshot()[d.Key]; !ok {
+						panic("download probe: the bundle's blob store has no key " + d.Key)
+					}
+					if d.Data == nil {
+						w.Blob.Remove(d.Key)
+					} else {
+						b, _ := hex.DecodeString(*d.Data)
+						w.Blob.Set(d.Key, b)
+					}
+				}
+				got, err := w.Download("repo", id, 0, nil)
+				if err != nil {
+					return err
+				}
+				for _, f := range got {
+					if f.Name == "obj" {
+						out = f.Data
+						return nil
+					}
+				}
+				return fmt.Errorf("the download reports success and the file is not there")
+			})
 		case "wt":
 			p.Class = guarded(10*time.Second, func() error {
 				r, err := fsr.Get(context.Background(), res.Key)
@@ -398,7 +432,7 @@ func cafsCoq(cs *cafsCase) string {
 			probes[i] = "PWarmSeq " + obs(p)
 		case "warmat":
 			probes[i] = fmt.Sprintf("PWarmAt %d%%nat %d%%nat %s", p.Off, p.N, obs(p))
-		case "wtat":
+		case "wtat", "dl":
 			probes[i] = "PWriteToAt " + obs(p)
 		case "wt":
 			probes[i] = "PWriteTo " + obs(p)
@@ -648,7 +682,7 @@ func cafsProp(prop string) propFn {
 		c.Rule = map[string]string{
 			"C01": "contents of 0..6 leaves (boundaries +-1, identical leaves), leaf sizes 64..128 in the evaluated cases, chunkings {WriterTo single write, single read, 1-byte, fixed k, random incl. > leaf}, sources that signal the end with their last bytes or with a separate read, stream modes {bulk, 1 byte per call, EOF with data}, prefetch 0..3, Read with many buffer-size sequences, ReadAt over a boundary grid incl. past EOF, both WriteTo paths; non-trivial = Put succeeded with at least one leaf, distinct by key+chunking",
 			"C02": "histories of Puts into one shared blob store (same content again, contents sharing leaves, prefixes of earlier contents), flush concurrency 1..16; keys compared three ways: implementation, Gallina BLAKE2b tree model, Python hashlib; non-trivial = Put with at least one leaf, distinct by key",
-			"C03": "every kind of single-blob damage (bit flip at boundary/random positions, truncation, emptying, deletion, swap with a leaf of the same or of another object, root blob replaced by another object's root blob, appended bytes) on objects of 1..6 leaves, observed through Read, ReadAt and both WriteTo paths with cold caches; non-trivial = damaged case with at least one leaf, distinct by key+damage",
+			"C03": "every kind of single-blob damage (bit flip at boundary/random positions, truncation, emptying, deletion, swap with a leaf of the same or of another object, root blob replaced by another object's root blob, appended bytes) on objects of 1..6 leaves, observed through Read, ReadAt, both WriteTo paths with cold caches, and a full download of a bundle holding the object as its only file; non-trivial = damaged case with at least one leaf, distinct by key+damage",
 		}[prop]
 		if prop == "C01" {
 			cafsBigCases(c, r)
@@ -718,7 +752,7 @@ func cafsProp(prop string) propFn {
 					}
 				}
 				cs.Damage = cafsDamages(r, probe, foreign)
-				cs.Probes = []cafsProbe{{Kind: "seq", Bufs: []int{[]int{1, L, 2*L + 1, 17}[r.Intn(4)]}}, {Kind: "wtat"}, {Kind: "wt"},
+				cs.Probes = []cafsProbe{{Kind: "seq", Bufs: []int{[]int{1, L, 2*L + 1, 17}[r.Intn(4)]}}, {Kind: "wtat"}, {Kind: "wt"}, {Kind: "dl"},
 					{Kind: "at", Off: 0, N: len(content) + 3}, {Kind: "at", Off: r.Intn(len(content) + 1), N: r.Range(1, 2*L)}}
 				if r.Bool() { // the same reads again through an instance that read the object before it was damaged
 					cs.Warm = true
